@@ -50,9 +50,9 @@ def eff_key_guess(f, ra):
 
 
 class PayloadGen:
-    def __init__(self, rng):
+    def __init__(self, rng, extra_defs=()):
         self.rng = rng
-        self.defs = {d["name"]: d for d in C.DEFS}
+        self.defs = {d["name"]: d for d in list(C.DEFS) + list(extra_defs)}
 
     # ---- valid-ish values with a per-node fault probability p --------------------------------
     def wrong(self, avoid):
@@ -226,6 +226,6 @@ def has_dup_or_collision(v):
     return False
 
 
-def entries():
-    g, table = G.generate(write=False)
-    return list(zip(table["entries"], C.ENTRIES)), table
+def entries(extra_defs=(), extra_entries=()):
+    g, table = G.generate(extra_defs, extra_entries, write=False)
+    return list(zip(table["entries"], list(C.ENTRIES) + list(extra_entries))), table
